@@ -24,5 +24,23 @@ add('C18', 'exhaustive execution of the real decoder on all 65340 codes (direct,
 add('C19', 'reference-model oracle + canary red zones + bounds-sanitized numba build over a complete finite grid',
     'Every point of the stated finite grid of (length, flags, offset, dtype pair, output length) is executed on the real compiled cumsum in the production build with canaries around both arrays and in the NUMBA_BOUNDSCHECK=1 build; held means held on that grid.',
     'numba bounds checking is trusted to flag every out-of-range index in serial kernels; values avoid overflow', 'DESIGN.md C19')
-for _p in ['C01','C02','C03','C05','C08','C09','C10','C11','C12','C13','C16','C20']:
+add('C01', 'unique-identity workload + reference decoding oracle + structural invariants + heap-poison scan on the real loader',
+    'Generated catalogue trees whose every raw particle word carries its serial number and origin are loaded by the real CompaSOHaloCatalog under hundreds of option combinations; each halo slice of each loaded subsample column is compared with the reference decoding of exactly the raw records the ground truth assigns to that halo; index columns checked for contiguity/order/A-before-B/sum. Held = on every load executed.',
+    'generated trees follow the documented file layout; python-blosc replaced by a stand-in for blsc inputs; loads that raise are recorded, not judged here', 'DESIGN.md C01')
+add('C02', 'differential monitor on the real loader (column alone / with others / subsets / default vs fields="all"), any exception = violation',
+    'Every valid column name is requested alone, with others in both orders, in random subsets and ordered pairs with derived columns, with and without subsamples, cleaned and uncleaned, and compared bit for bit with the fields="all" load of the same files; passthrough subsets as a separate class.',
+    'index columns are compared only between loads with the same subsample selection (they are documented to be re-indexed)', 'DESIGN.md C02')
+add('C03', 'differential + identity monitor with predetermined per-superslab masks delivered by a recording filter closure',
+    'Multi-file loads are compared with the row-wise concatenation of single-file loads, filtered loads with the masked unfiltered load (halo columns bit for bit, particle slices by identity tags), for mask classes all/none/none-in-one-slab/zero-particle/cleaned-away/random; the filter records the columns and N it is shown; documented rejections are checked to raise.',
+    'the loader calls the filter once per superslab in file order (asserted)', 'DESIGN.md C03')
+add('C05', 'unit-relation reference table against the raw stored arrays under varied (BoxSize, VelZSpace_to_kms); on/off differential; quadrature identity',
+    'Each row of each halo column of generated catalogues (box and light-cone layout, cleaned on/off, all-fields and single-column loads) is related to the stored raw value and to its convert_units=False counterpart with the factor of its class; boxes and velocity scales differ by >=3x so a wrong constant cannot hide.',
+    'column classification written from the HaloStat documentation; sigman_* only asserted to differ by 1 or BoxSize; *_mainprog treated as stored in final units', 'DESIGN.md C05')
+add('C08', 'full-mesh enumeration oracle with unique integer mode tags over the real compiled binning kernels (float64 exact sums), thread-count differential',
+    'bin_kmu/bin_kppi/calc_pk_from_deltak/project_3d_to_poles are executed on meshes of distinct integers for odd and even sizes and many edge families; counts and per-bin sums are compared with an enumeration of all n^3 modes through Hermitian symmetry; modes within 4 ulp of an edge may fall on either side but are counted once; counts must be identical for nthread 1..16.',
+    'reference enumerates the full mesh with numpy.fft.fftfreq; Legendre sums at 2e-5 (kernel evaluates P_l in float32)', 'DESIGN.md C08')
+add('C13', 'metamorphic differential monitor on the real calc_power (permutation, whole-cell translation on an exact dyadic lattice, thread count, cross==auto, particle-independent columns)',
+    'Base configurations over TSC/CIC x compensated x interlaced x binnings x mesh sizes (odd and even) x thread counts x field dtype are each followed by their transformed runs; float columns compared at 2e-4 (k_avg 1e-3) of the column maximum, count/range columns exactly.',
+    'tolerances calibrated on observed float32 accumulation noise (<=2.2e-5)', 'DESIGN.md C13')
+for _p in ['C09','C10','C11','C12','C16','C20']:
     NOT_APPLICABLE[_p] = 'monitor not built yet (work in progress; planned in DESIGN.md)'
